@@ -315,6 +315,19 @@ fn ignored_line(r: &mut Rng, id: &str) -> Line {
             // library's own source that is not one of the fifteen known keys
             let lits = literal_unknown_keys();
             let key: &str = if !lits.is_empty() && r.chance(1, 4) { lits[r.below(lits.len())] } else { *r.pick(&UNKNOWN_KEYS) };
+            // ... or a known key with bytes glued on that a fixed-width, a
+            // NUL-terminated or a packed comparison does not see (none of them
+            // is white space under any reading, so the key is not trimmed)
+            let glued: String;
+            let key: &str = if r.chance(1, 5) {
+                const KNOWN: [&str; 8] = ["PKGNAME", "ALL_DEPENDS", "PKG_LOCATION", "MAINTAINER", "CATEGORIES", "SCAN_DEPENDS", "MULTI_VERSION", "PBULK_WEIGHT"];
+                let k = *r.pick(&KNOWN);
+                let inv = *r.pick(&["\0", "\0\0", "\u{1}", "\u{7f}", "\u{200b}", "\u{feff}", "\0\0\0\0\0\0\0\0"]);
+                glued = if r.chance(1, 4) { format!("{inv}{k}") } else { format!("{k}{inv}") };
+                &glued
+            } else {
+                key
+            };
             let val = match r.below(6) {
                 0 => format!("PKGNAME={id}-9.9"),
                 1 => good_depend(r, id),
